@@ -174,8 +174,19 @@ class AirTouchSocket(Generic[comms.Hdr]):
     async def close(self) -> None:
         """Close the socket to the AirTouch."""
         if self.is_open:
-            await self._disconnect()
+            # Mark the socket as closed first so that nothing schedules a new
+            # connection attempt while the close is in progress.
             self.is_open = False
+
+            # Stop pending connection attempts (including delayed retries) and
+            # the read loop; otherwise they would reconnect after the close.
+            current_task = asyncio.current_task()
+            tasks = [t for t in self._background_tasks if t is not current_task]
+            for task in tasks:
+                task.cancel()
+            await asyncio.gather(*tasks, return_exceptions=True)
+
+            await self._disconnect()
 
     async def send(self, message: comms.Message, retry_policy: RetryPolicy) -> None:
         """Send a message to the AirTouch.
@@ -293,8 +304,8 @@ class AirTouchSocket(Generic[comms.Hdr]):
         task.add_done_callback(discard_task)
 
     async def _connect(self) -> None:
-        if self.is_connected or self._connecting:
-            _LOGGER.debug("_connect ignored. Already connected or connecting")
+        if self.is_connected or self._connecting or not self.is_open:
+            _LOGGER.debug("_connect ignored. Already connected, connecting or closed")
             return
 
         _LOGGER.debug("Attempting to open connection to %s:%d", self.host, self.port)
@@ -318,7 +329,7 @@ class AirTouchSocket(Generic[comms.Hdr]):
         except OSError as ex:
             _LOGGER.debug("Unable to connect. Will try again later. Reason: %s", ex)
 
-        if not self.is_connected:
+        if not self.is_connected and self.is_open:
             # Connection failed, so retry after a small delay
             self._schedule(self._connect(), delay=_CONNECT_RETRY_DELAY)
 
@@ -351,7 +362,8 @@ class AirTouchSocket(Generic[comms.Hdr]):
         underlying socket.
         """
         await self._disconnect()
-        self._schedule(self._connect())
+        if self.is_open:
+            self._schedule(self._connect())
 
     async def _read(self) -> None:
         """The main read loop for the AirTouch socket."""
@@ -551,5 +563,12 @@ T = TypeVar("T")
 
 async def _delay(coro: Awaitable[T], delay: float) -> T:
     """Delays the execution of an awaitable."""
-    await asyncio.sleep(delay)
+    try:
+        await asyncio.sleep(delay)
+    except asyncio.CancelledError:
+        # Cancelled before the delay elapsed (the socket was closed): the
+        # wrapped coroutine will never be started.
+        if asyncio.iscoroutine(coro):
+            coro.close()
+        raise
     return await coro
